@@ -88,8 +88,15 @@ class Rng:
             return []
         mode = self.below(4)
         cuts = set()
-        if mode == 0:
+        if mode == 0 and n <= 2000:
             cuts = set(range(1, n))  # byte by byte
+        elif mode == 0:
+            # long stream: byte by byte at both ends, blocks of 1..4096 bytes in between (keeps schedules below a few thousand steps)
+            cuts = set(range(1, 300)) | set(range(n - 300, n))
+            c = 300
+            while c < n - 300:
+                cuts.add(c)
+                c += self.range(1, 4096)
         elif mode == 1:
             pass  # single segment
         else:
